@@ -40,6 +40,10 @@ PROGRAMS = [
     ("def t(c: Parameter[bool], a: bool, b: bool) -> bool:\n\tr = a and c\n\tc = b\n\treturn r ^ c", dict(c=[True, False])),
     ("def t(k: Parameter[Qint[2]], a: Qint[2]) -> Qint[2]:\n\tk = k + a\n\treturn k + 1", dict(k=[0, 1, 3])),
     ("def t(c: Parameter[bool], a: bool, b: bool) -> bool:\n\tdef g(c: bool, y: bool) -> bool:\n\t\treturn c and not y\n\treturn g(a, b) ^ c", dict(c=[True, False])),
+    # a sequence parameter RE-ASSIGNED to a display of another length / to other constants, then read with a variable index
+    ("def t(c: Parameter[Qlist[bool, 2]], i: Qint[2]) -> bool:\n\tc = [c[1], c[0], c[1]]\n\treturn c[i]", dict(c=[[False, True], [True, False], [True, True]])),
+    ("def t(c: Parameter[Qlist[Qint[2], 2]], i: Qint[2]) -> Qint[2]:\n\tc = [c[1], 3, c[0], 1]\n\treturn c[i]", dict(c=[[0, 2], [1, 3], [2, 2]])),
+    ("def t(c: Parameter[Qlist[Qint[2], 3]], i: bool) -> Qint[2]:\n\tc = [c[2], c[0]]\n\treturn c[1] if i else c[0]", dict(c=[[0, 1, 2], [3, 1, 0]])),
     # parameters WITH DEFAULT VALUES bound to falsy values (rejected, or the bound value - never the default)
     ("def t(a: bool, b: bool, c: Parameter[bool] = True) -> bool:\n\treturn (a and b) ^ c", dict(c=[False, True])),
     ("def t(a: Qint[2], b: bool, k: Parameter[Qint[2]] = 3) -> Qint[2]:\n\treturn a + k if b else a", dict(k=[0, 1, 3])),
